@@ -126,3 +126,49 @@ func c17SelfRelease() {
 		}
 	}
 }
+
+// C17/nil-fn: Do(nil) panics, as a call with a nil function must; its caller recovers and the Worker is
+// used normally afterwards: the failed call has started nothing and has left nothing behind.
+func init() {
+	Register(Harness{Prop: "C17", Name: "C17/nil-fn", Run: c17NilFn, Weight: 1})
+}
+
+func c17NilFn() {
+	var w bigbuff.Worker
+	if simrt.Chance(1, 2) {
+		// (sometimes after an ordinary round)
+		started := false
+		d := w.Do(func(stop <-chan struct{}) { started = true; <-stop })
+		d()
+		simrt.Quiesce(-1)
+		if !started {
+			simrt.Failf("C17.no-instance-for-holder", "the worker function was never started")
+			return
+		}
+	}
+	simrt.Fault("invalid_call")
+	if !expectPanic(func() { w.Do(nil) }) {
+		simrt.Probe("do_nil_did_not_panic")
+	}
+	started, stopped := 0, 0
+	var done func()
+	returned := false
+	go func() {
+		done = w.Do(func(stop <-chan struct{}) { started++; <-stop; stopped++ })
+		returned = true
+	}()
+	simrt.Quiesce(-1)
+	if !returned {
+		simrt.Failf("C17.do-stuck", "after a recovered Do(nil), Do with a proper function has not returned at quiescence")
+		return
+	}
+	if started != 1 {
+		simrt.Failf("C17.no-instance-while-held", "after a recovered Do(nil): Do returned, its holder has not called done, and the worker function has been started %d times: an instance must be running while the Worker is held", started)
+		return
+	}
+	done()
+	simrt.Quiesce(-1)
+	if stopped != 1 {
+		simrt.Failf("C17.instance-not-stopped", "after a recovered Do(nil): the only holder has called done, the instance has not been stopped")
+	}
+}
